@@ -199,6 +199,8 @@ def playback_print(wsdir, pkg, features, no_default, kani_args, harness, timeout
     text = p.stdout + '\n' + p.stderr
     open(logpath, 'w').write('$ ' + ' '.join(cmd) + '\n' + text)
     tests = re.findall(r'```\n(.*?)```', text, re.S)
+    # counterexamples for failed checks only (Kani also prints witnesses for satisfied cover points)
+    tests = [t for t in tests if not re.search(r'Check for `cover`', t)]
     return tests or None
 
 
